@@ -965,7 +965,27 @@ impl SvgElement {
             "xy", "cxy", "xy1", "xy2", "xy-loc", "wh", "dxy", "dwh", "dw", "dh", "start", "end",
             "surround", "inside",
         ];
-        if let Some(attr) = UNRESOLVED.iter().find(|a| self.has_attr(a)) {
+        // Resolving a basic shape folds every other way of giving its geometry into its
+        // native attributes and removes the rest (x2 on a circle, cx on a rect, dx...);
+        // one that is still present has not been taken into account yet.
+        let foreign: &[&str] = match self.name.as_str() {
+            "rect" | "box" => &["dx", "dy", "x1", "y1", "x2", "y2", "cx", "cy", "r"],
+            "circle" => &[
+                "dx", "dy", "x", "y", "x1", "y1", "x2", "y2", "rx", "ry", "width", "height",
+            ],
+            "ellipse" => &[
+                "dx", "dy", "x", "y", "x1", "y1", "x2", "y2", "r", "width", "height",
+            ],
+            "line" => &[
+                "dx", "dy", "x", "y", "cx", "cy", "r", "rx", "ry", "width", "height",
+            ],
+            _ => &[],
+        };
+        if let Some(attr) = UNRESOLVED
+            .iter()
+            .chain(foreign.iter())
+            .find(|a| self.has_attr(a))
+        {
             return Err(SvgdxError::MissingBoundingBox(format!(
                 "{self} has unresolved '{attr}'"
             )));
